@@ -111,7 +111,7 @@ class SimSemLock:
         self._sem = sem
         self.kind = kind
         self.maxvalue = maxvalue
-        self.name = name
+        self.name = None if unlink else name       # as semaphore.c: no name is kept for an unlinked semaphore
         self.handle = len(k.all_sems)
         self.count = 0
         self.last_tid = None
@@ -551,6 +551,8 @@ def install(proc):
     if cur is not None:
         cm = cur.modules
         for name in [n for n in mods if _is_mine(n)]:
+            if name not in cm and cm and getattr(cur, "booted_modules", False):
+                cur.late_modules = getattr(cur, "late_modules", []) + [name]
             cm[name] = mods.pop(name)
     else:
         for name in [n for n in mods if _is_mine(n)]:
@@ -583,6 +585,10 @@ MP_MODULES = (
     "multiprocessing.util", "multiprocessing.connection", "multiprocessing.queues",
     "multiprocessing.reduction", "multiprocessing.resource_tracker",
     "multiprocessing.synchronize", "multiprocessing.spawn", "multiprocessing.resource_sharer",
+    # start-method back-ends a (mutated) loky could reach: they must see the fake os (os.fork is trapped)
+    "multiprocessing.popen_fork", "multiprocessing.popen_spawn_posix", "multiprocessing.popen_forkserver",
+    "multiprocessing.forkserver", "multiprocessing.pool", "multiprocessing.managers", "multiprocessing.sharedctypes",
+    "multiprocessing.heap", "multiprocessing.shared_memory",
 )
 
 
@@ -649,9 +655,19 @@ def boot_modules(proc):
     mpu._close_stdin = lambda: None
     mpu._flush_std_streams = lambda: None
     mprt._resource_tracker = _StubMpTracker(proc)
+    for fn_ in ("ensure_running", "register", "unregister", "getfd"):
+        setattr(mprt, fn_, getattr(mprt._resource_tracker, fn_))
+    mprt.sys = make_module("sys", sys, dict(stdin=io.StringIO(), stdout=io.StringIO(), stderr=quiet))
+    for m_ in (mpsync,):
+        if hasattr(m_, "register"):
+            m_.register = mprt._resource_tracker.register
+        if hasattr(m_, "unregister"):
+            m_.unregister = mprt._resource_tracker.unregister
     hook = RT.run.post_boot
     if hook is not None:
         hook(proc)
+    proc.modules.update({n: m for n, m in sys.modules.items() if _is_mine(n)})
+    proc.booted_modules = True
     return proc.modules
 
 
